@@ -1181,6 +1181,16 @@ class LangServer:
             depth -= 1
         return depth
 
+    def _is_keyword_of_global(self, def_obj) -> bool:
+        """A dummy argument of a procedure that other files can call: it occurs as
+        an argument keyword wherever the procedure is called"""
+        parent = def_obj.parent
+        return (
+            parent is not None
+            and self._nesting_depth(parent) <= 1
+            and any(arg is def_obj for arg in getattr(parent, "arg_objs", None) or [])
+        )
+
     def serve_references(self, request):
         # Get parameters from request
         params: dict = request["params"]
@@ -1201,7 +1211,7 @@ class LangServer:
         # Determine global accessibility and type membership
         restrict_file = None
         type_mem = False
-        if self._nesting_depth(def_obj) > 1:
+        if self._nesting_depth(def_obj) > 1 and not self._is_keyword_of_global(def_obj):
             if def_obj.parent is not None and def_obj.parent.get_type() == CLASS_TYPE_ID:
                 type_mem = True
             else:
@@ -1353,7 +1363,7 @@ class LangServer:
         # Determine global accesibility and type membership
         restrict_file = None
         type_mem = False
-        if self._nesting_depth(def_obj) > 1:
+        if self._nesting_depth(def_obj) > 1 and not self._is_keyword_of_global(def_obj):
             if def_obj.parent is not None and def_obj.parent.get_type() == CLASS_TYPE_ID:
                 type_mem = True
             else:
